@@ -112,4 +112,4 @@ def run(ctx: vlib.Ctx):
             except BaseException as e:  # noqa: BLE001
                 X.classify(ctx, findings, CLASSES, {"text": r["ctext"]}, f"octave_write raised {type(e).__name__}: {str(e)[:80]}", "write-raises")
     ctx.assumptions = ["the strict-profile recogniser tools/harness/strictprofile.py is written from the property statement (independent of the emitter)",
-                       "proved: emitter-side facts (Props/C03), two spaces per level for block trees (C01blocks), convergence of every whitespace / quote / triple-quote / omitted-END spelling of flat documents (C03flat); alias spellings, list layouts and nested documents: open proof targets decided by the convergence search"]
+                       "proved: emitter-side facts (Props/C03), two spaces per level for block trees (C01blocks), convergence of every whitespace / quote / triple-quote / omitted-END spelling of flat documents (C03flat); of every ASCII-alias spelling of expressions (C03expr), of list layouts (C01lists), of # section markers (C01sections); spellings inside nested documents are decided by the convergence search"]
